@@ -17,8 +17,10 @@ def interface():
     global _GEN
     if _GEN is not None:
         return _GEN
-    cd = ClassDiagram([vmodel.VA, vmodel.VB, vmodel.VC, vmodel.VM])
-    orm = ORMatic(class_dependency_graph=cd, type_mappings={vmodel.VK: vmodel.VKType, vmodel.jsonmodel.A: JSON, vmodel.jsonmodel2.A: JSON}, alternative_mappings=[vmodel.VMMapping])
+    from types import FunctionType
+    from krrood.ormatic.alternative_mappings import FunctionMapping
+    cd = ClassDiagram([vmodel.VA, vmodel.VB, vmodel.VC, vmodel.VM, vmodel.VN, FunctionType])
+    orm = ORMatic(class_dependency_graph=cd, type_mappings={vmodel.VK: vmodel.VKType, vmodel.jsonmodel.A: JSON, vmodel.jsonmodel2.A: JSON}, alternative_mappings=[vmodel.VMMapping, FunctionMapping])
     orm.make_all_tables()
     d = tempfile.mkdtemp(prefix="vorm_")
     path = os.path.join(d, "vmodel_orm.py")
